@@ -18,7 +18,7 @@ COMPONENTS = dict(
     simulated=['GLib main contexts + clocks', 'AF_PACKET sockets on a shared Ethernet segment with drop / duplicate / reorder / delay (dsim.net)', 'D-Bus (dsim.dbusmod)'],
     stub=['psutil (interfaces of the simulated host)', 'macaddress (EUI48 value type)', 'portion (integer interval shim)', 'yaml (import only)'])
 PROBES = ('xfer.segmented', 'xfer.unsegmented', 'dg.dup', 'dg.delay', 'dg.drop', 'foreign.multi_message', 'foreign.hints', 'foreign.padding', 'bundles.delivered',
-          'timing.spread_over_timeout', 'frames.roundtrip_checked', 'probe.escaped_exception')
+          'timing.spread_over_timeout', 'frames.roundtrip_checked')
 ASSUMPTIONS = ['delivery is required only when every inter-segment gap is below the receive timeout the code documents ("reset each time a new segment is received")',
                'the decode / re-encode clause has no schedule dimension; it is checked on every frame that crosses the simulated wire']
 CHUNK = 10
